@@ -792,9 +792,11 @@ def detrend_1d(arr: np.ndarray) -> np.ndarray:
     if m == 1:
         return np.zeros(1, dtype=arr.dtype)
 
-    x_sum = m * (m - 1) / 2
+    # Closed forms of sum(i) and sum(i**2), evaluated in float64: the integer
+    # product m * (m - 1) * (2 * m - 1) overflows int64 for m > 1664511.
+    x_sum = m * (m - 1.0) / 2
     y_sum = 0.0
-    x_sq_sum = m * (m - 1) * (2 * m - 1) / 6
+    x_sq_sum = m * (m - 1.0) * (2.0 * m - 1.0) / 6
     x_y_sum = 0.0
 
     for i in range(m):
